@@ -15,7 +15,7 @@
 
 static std::deque<State> worklist;
 static std::set<std::string> FUNCS_EXECUTED, EXTERNALS_USED;
-static std::map<std::string, uint64_t> COVER_COUNTS;
+static std::map<std::string, uint64_t> COVER_COUNTS, FORK_SITES;
 struct Sample { std::vector<std::pair<std::string, std::string>> inputs, notes; };
 static std::vector<Sample> SAMPLES;
 
@@ -396,7 +396,7 @@ static bool step_inner(State &s)
       bool ff = ft ? may_be_true(s, nt, &mf) : true;
       if (ft && ff)
       {
-        ST.forks++;
+        ST.forks++; FORK_SITES[cur_fn(s) + " " + cur_loc(s)]++;
         State s2 = s;
         add_constraint(s2, nt); if (mf) s2.model = mf; jump(s2, br->getSuccessor(1)); worklist.push_back(std::move(s2));
         add_constraint(s, t); if (!s.model && mt) s.model = mt; jump(s, br->getSuccessor(0)); return true;
@@ -753,6 +753,7 @@ int main(int argc, char **argv)
   else if (INCONCLUSIVE || !worklist.empty() || ST.abandoned) status = 2;
   if (!worklist.empty() && INCONCLUSIVE_WHY.empty()) INCONCLUSIVE_WHY = timed_out ? "time budget exhausted with paths pending" : "path budget exhausted with paths pending";
   for (auto &v : VIOLS) printf("SYMX-VIOLATION [%s] %s | fn=%s loc=%s count=%lu\n", v.kind.c_str(), v.msg.c_str(), v.fn.c_str(), v.loc.c_str(), v.count);
+  if (OPT.verbose) { std::vector<std::pair<uint64_t, std::string>> fs; for (auto &kv : FORK_SITES) fs.push_back({kv.second, kv.first}); std::sort(fs.rbegin(), fs.rend()); for (size_t i = 0; i < fs.size() && i < 12; i++) fprintf(stderr, "symx: fork site %lu x %s\n", fs[i].first, fs[i].second.c_str()); }
   if (OPT.verbose) fprintf(stderr, "symx: time simplify=%.2f model_eval=%.2f enum=%.2f copy=%.2f\n", T_SIMPLIFY, T_MODEL, T_ENUM, T_COPY);
   printf("symx: entry=%s paths=%lu completed=%lu infeasible=%lu forks=%lu steps=%lu queries=%lu (cache %lu, model %lu) solver_s=%.2f wall_s=%.2f violations=%zu pending=%zu status=%d\n",
          entry_name.c_str(), ST.paths, ST.completed, ST.infeasible, ST.forks, ST.steps, ST.queries, ST.cache_hits, ST.model_hits, ST.solver_s, wall, VIOLS.size(), worklist.size(), status);
